@@ -692,4 +692,166 @@ example :
 
 end TimeoutMw
 
+/-! ## Part 3 — the options of the timeout middleware (`options.go`, `shouldSkip`) -/
+section TimeoutOptions
+open Rivaas.Timeout
+
+/-- the skip function after folding the options over a configuration -/
+theorem lemma_fold_skipFunc (opts : List Opt) (c : Config) :
+    (opts.foldl applyOpt c).skipFunc = if opts.any isSkipOpt then lastSkipFn opts else c.skipFunc := by
+  induction opts generalizing c with
+  | nil => simp
+  | cons o os ih =>
+    rw [List.foldl_cons, ih]
+    cases hany : os.any isSkipOpt <;> cases o <;> simp [applyOpt, isSkipOpt, lastSkipFn, hany]
+
+theorem lemma_fold_paths (opts : List Opt) (c : Config) (path : List Char) :
+    (opts.foldl applyOpt c).skipPaths.contains path =
+      (c.skipPaths.contains path || opts.any fun o => match o with | .skipPaths ps => ps.contains path | _ => false) := by
+  induction opts generalizing c with
+  | nil => simp
+  | cons o os ih =>
+    rw [List.foldl_cons, ih]
+    cases o <;> simp [applyOpt, Bool.or_assoc]
+
+theorem lemma_fold_prefixes (opts : List Opt) (c : Config) (path : List Char) :
+    (opts.foldl applyOpt c).skipPrefixes.any (fun p => p.isPrefixOf path) =
+      (c.skipPrefixes.any (fun p => p.isPrefixOf path) ||
+        opts.any fun o => match o with | .skipPrefix ps => ps.any (fun p => p.isPrefixOf path) | _ => false) := by
+  induction opts generalizing c with
+  | nil => simp
+  | cons o os ih =>
+    rw [List.foldl_cons, ih]
+    cases o <;> simp [applyOpt, Bool.or_assoc]
+
+theorem lemma_fold_suffixes (opts : List Opt) (c : Config) (path : List Char) :
+    (opts.foldl applyOpt c).skipSuffixes.any (fun p => p.isSuffixOf path) =
+      (c.skipSuffixes.any (fun p => p.isSuffixOf path) ||
+        opts.any fun o => match o with | .skipSuffix ps => ps.any (fun p => p.isSuffixOf path) | _ => false) := by
+  induction opts generalizing c with
+  | nil => simp
+  | cons o os ih =>
+    rw [List.foldl_cons, ih]
+    cases o <;> simp [applyOpt, Bool.or_assoc]
+
+theorem lemma_any_optSkips (opts : List Opt) (path : List Char) :
+    opts.any (optSkips path) =
+      ((opts.any fun o => match o with | .skipPaths ps => ps.contains path | _ => false) ||
+       (opts.any fun o => match o with | .skipPrefix ps => ps.any (fun p => p.isPrefixOf path) | _ => false) ||
+       (opts.any fun o => match o with | .skipSuffix ps => ps.any (fun p => p.isSuffixOf path) | _ => false)) := by
+  induction opts with
+  | nil => simp
+  | cons o os ih =>
+    simp only [List.any_cons, ih]
+    generalize (os.any fun o => match o with | .skipPaths ps => ps.contains path | _ => false) = a
+    generalize (os.any fun o => match o with | .skipPrefix ps => ps.any (fun p => p.isPrefixOf path) | _ => false) = b
+    generalize (os.any fun o => match o with | .skipSuffix ps => ps.any (fun p => p.isSuffixOf path) | _ => false) = d
+    cases o <;> simp only [optSkips, Bool.false_or] <;> cases a <;> cases b <;> cases d <;> simp
+
+theorem lemma_lastSkip_none (opts : List Opt) (h : opts.any isSkipOpt = false) : lastSkipFn opts = none := by
+  induction opts with
+  | nil => rfl
+  | cons o os ih =>
+    simp only [List.any_cons, Bool.or_eq_false_iff] at h
+    cases o <;> simp_all [lastSkipFn, isSkipOpt]
+
+/-- **Options.** Whatever options are given in whatever order, the request is left alone iff some
+    `WithSkipPaths` / `WithSkipPrefix` / `WithSkipSuffix` option covers its path or the last `WithSkip` function
+    returns true. -/
+theorem skip_decision_meets_spec (opts : List Opt) (path : List Char) :
+    shouldSkip (configure opts) path = skipSpec opts path := by
+  have hp := lemma_fold_paths opts {} path
+  have hx := lemma_fold_prefixes opts {} path
+  have hs := lemma_fold_suffixes opts {} path
+  have hf := lemma_fold_skipFunc opts {}
+  simp only [List.contains_nil, Bool.false_or, List.any_nil] at hp hx hs
+  unfold shouldSkip skipSpec configure
+  rw [hp, hx, hs, hf, lemma_any_optSkips]
+  generalize (opts.any fun o => match o with | .skipPaths ps => ps.contains path | _ => false) = a
+  generalize (opts.any fun o => match o with | .skipPrefix ps => ps.any (fun p => p.isPrefixOf path) | _ => false) = b
+  generalize (opts.any fun o => match o with | .skipSuffix ps => ps.any (fun p => p.isSuffixOf path) | _ => false) = d
+  cases hany : opts.any isSkipOpt
+  · simp [lemma_lastSkip_none opts hany]
+    cases a <;> cases b <;> cases d <;> simp
+  · simp
+    cases a <;> cases b <;> cases d <;> simp
+    all_goals (cases lastSkipFn opts <;> simp <;> rename_i v <;> cases v <;> simp)
+
+/-- the last `WithDuration`, the last of `WithoutLogging` / `WithLogger`, the last `WithHandler` win; defaults
+    30 s, logging on, the default 408 handler -/
+theorem option_defaults : configure [] = { durationMs := 30000, logging := true, handlerTag := 0 } := rfl
+
+theorem last_duration_wins (opts : List Opt) (ms : Nat) (rest : List Opt)
+    (h : ∀ o ∈ rest, ∀ m, o ≠ .duration m) : (configure (opts ++ .duration ms :: rest)).durationMs = ms := by
+  unfold configure
+  rw [List.foldl_append, List.foldl_cons]
+  have hc : (applyOpt (List.foldl applyOpt {} opts) (.duration ms)).durationMs = ms := rfl
+  generalize (applyOpt (List.foldl applyOpt {} opts) (.duration ms)) = c at hc
+  have : ∀ c : Config, (rest.foldl applyOpt c).durationMs = c.durationMs := by
+    intro c
+    induction rest generalizing c with
+    | nil => rfl
+    | cons o os ih =>
+      rw [List.foldl_cons, ih (fun o' ho' => h o' (List.mem_cons_of_mem _ ho'))]
+      have := h o (List.mem_cons_self ..)
+      cases o <;> simp_all [applyOpt]
+  rw [this, hc]
+
+
+/-- what a skipped request needs in order to end well -/
+def InvS (s : St) : Prop :=
+  s.releasedEarly = false ∧ Chunk.t408 ∉ s.body ∧ (s.started = true → Chunk.h ∈ s.body) ∧
+  (s.started = false → s.body = [] ∧ s.status = none) ∧ s.panicChan = none ∧ s.recovered = none
+
+theorem lemma_runSkipped_ok (drop : Nat) (prog : List HAct) (s : St) (h : InvS s) :
+    timeoutOK (obsOf (runSkipped drop prog s)) = true ∧ (runSkipped drop prog s).rpc = .returned ∧
+    Chunk.t408 ∉ (runSkipped drop prog s).body := by
+  induction prog generalizing drop s with
+  | nil =>
+    obtain ⟨h1, h2, _, _, h5, h6⟩ := h
+    have hcnt : s.body.count Chunk.t408 = 0 := List.count_eq_zero.mpr h2
+    cases drop <;> simp [runSkipped, timeoutOK, obsOf, h1, hcnt, h5, h6, h2]
+  | cons a r ih =>
+    cases drop with
+    | succ k => simp only [runSkipped]; exact ih k s h
+    | zero =>
+      obtain ⟨h1, h2, h3, h4, h5, h6⟩ := h
+      cases a with
+      | write =>
+        simp only [runSkipped]
+        exact ih 0 _ ⟨by simpa [St.write] using h1, by simp [St.write, h2], fun _ => by simp [St.write],
+          fun hf => by simp [St.write] at hf, by simpa [St.write] using h5, by simpa [St.write] using h6⟩
+      | panic v =>
+        simp only [runSkipped]
+        have hcnt : s.body.count Chunk.t408 = 0 := List.count_eq_zero.mpr h2
+        refine ⟨?_, by simp [St.write], by simp [St.write, h2]⟩
+        cases hst : s.started
+        · have := h4 hst
+          simp [timeoutOK, obsOf, St.write, h1, this.1, this.2]
+        · have := h3 hst
+          simp [timeoutOK, obsOf, St.write, h1, h2, hcnt, List.count_append, this]
+      | fireDl => simp only [runSkipped]; exact ih 0 _ ⟨h1, h2, h3, h4, h5, h6⟩
+      | firePc => simp only [runSkipped]; exact ih 0 _ ⟨h1, h2, h3, h4, h5, h6⟩
+      | guard n => simp only [runSkipped]; exact ih _ s ⟨h1, h2, h3, h4, h5, h6⟩
+      | awaitCtx => simp only [runSkipped]; exact ih 0 s ⟨h1, h2, h3, h4, h5, h6⟩
+      | awaitE => simp only [runSkipped]; exact ih 0 s ⟨h1, h2, h3, h4, h5, h6⟩
+      | awaitT => simp only [runSkipped]; exact ih 0 s ⟨h1, h2, h3, h4, h5, h6⟩
+      | signalH => simp only [runSkipped]; exact ih 0 s ⟨h1, h2, h3, h4, h5, h6⟩
+      | awaitRet => simp only [runSkipped]; exact ih 0 s ⟨h1, h2, h3, h4, h5, h6⟩
+      | hold => simp only [runSkipped]; exact ih 0 s ⟨h1, h2, h3, h4, h5, h6⟩
+
+/-- **Skipped requests.** A request the options exempt is served straight through: it returns, its response never
+    contains a timeout body, and the single-response oracle holds — for every program. -/
+theorem skipped_single_response (prog : List HAct) :
+    let s := runSkipped 0 prog (init prog)
+    timeoutOK (obsOf s) = true ∧ s.rpc = .returned ∧ Chunk.t408 ∉ s.body :=
+  lemma_runSkipped_ok 0 prog (init prog) ⟨rfl, by simp [init], by simp [init], fun _ => ⟨rfl, rfl⟩, rfl, rfl⟩
+
+example :
+    let opts := [Opt.skipPrefix ["/adm".toList], .duration 5, .skip (some false), .skipPaths ["/t".toList]]
+    shouldSkip (configure opts) "/t".toList = true ∧ shouldSkip (configure opts) "/admin/x".toList = true ∧
+    shouldSkip (configure opts) "/x".toList = false ∧ skipFuncCalled (configure opts) "/x".toList = true ∧
+    skipFuncCalled (configure opts) "/t".toList = false ∧ (configure opts).durationMs = 5 := by decide
+end TimeoutOptions
+
 end Rivaas.C10
